@@ -108,6 +108,7 @@ import (
 	"github.com/libp2p/go-libp2p/core/network"
 	"github.com/libp2p/go-libp2p/core/peerstore"
 	"github.com/libp2p/go-libp2p/core/protocol"
+	basichost "github.com/libp2p/go-libp2p/p2p/host/basic"
 	blankhost "github.com/libp2p/go-libp2p/p2p/host/blank"
 	rcmgr "github.com/libp2p/go-libp2p/p2p/host/resource-manager"
 	"github.com/libp2p/go-libp2p/p2p/net/swarm"
@@ -175,6 +176,7 @@ const (
 	useUnused     = 2 // no I/O at all, end immediately
 	useDuplex     = 3 // first Read (own task) and first Write race; hold; end
 	useReadOnly   = 4 // read-only client: CloseWrite is the very first operation, then Read(reply); hold; end
+	useIdle       = 5 // Write+Read; idle (virtual time) for twice the listener's negotiation timeout; Write+Read again; hold; end
 )
 
 type openPlan struct {
@@ -204,8 +206,9 @@ type plan struct {
 	simul          bool // both sides connect at the same time (usually two connections)
 	initial        []mutPlan
 	rounds         []roundPlan
-	fault          bool // stratum: one injected resource-manager refusal of SetProtocol
-	nullRcmgr      bool // stratum: both nodes run with network.NullResourceManager
+	fault          bool          // stratum: one injected resource-manager refusal of SetProtocol
+	nullRcmgr      bool          // stratum: both nodes run with network.NullResourceManager
+	negB           time.Duration // listener's HostOpts.NegotiationTimeout (basic host; 0 = simhost default 10 s)
 	faultRound     int
 	faultOnB       bool
 	faultN         int
@@ -295,6 +298,7 @@ func drawPlan(g simrt.Gen) plan {
 		p.lat = []time.Duration{0, time.Millisecond, 20 * time.Millisecond}
 	}
 	p.simul = g.Chance(1, 5)
+	p.negB = []time.Duration{0, time.Second, 2 * time.Second, 3 * time.Second}[g.Weighted(2, 1, 1, 1)]
 	tab := planTable{}
 	ni := 1 + g.Int(4)
 	for i := 0; i < ni; i++ {
@@ -330,7 +334,7 @@ func drawPlan(g simrt.Gen) plan {
 		unusedGiven := false
 		for i := 0; i < no; i++ {
 			op := openPlan{req: drawReq(g, live)}
-			op.use = g.Weighted(8, 2, 1, 2, 2)
+			op.use = g.Weighted(8, 2, 1, 2, 2, 2)
 			if op.use == useUnused || op.use == useReadOnly {
 				if unusedGiven {
 					op.use = useNormal // at most one open per round that sends no nonce (attribution of nonce-less handler runs)
@@ -391,6 +395,11 @@ type openRec struct {
 	useErr     string
 	reply      string
 	held       bool
+	idled      time.Duration // useIdle: virtual time between the two round trips
+	nonce2     string
+	reply2     string
+	use2Err    string
+	use2Done   uint64
 	faultArmed bool
 }
 
@@ -403,8 +412,10 @@ type invocation struct {
 	anon    bool // could not read a full nonce
 	replied bool
 	holding bool
-	active  bool // handler has not returned yet
-	extra   int  // bytes received after the nonce
+	active  bool     // handler has not returned yet
+	extra   int      // bytes received after the last complete nonce (a partial message)
+	answers int      // replies written (first included)
+	nonces  []string // every further nonce received after the first
 	endErr  string
 }
 
@@ -459,23 +470,34 @@ func (w *world) handler(in *inst) network.StreamHandler {
 			return
 		}
 		iv.replied = true
+		iv.answers = 1
 		iv.holding = true
-		simrt.Recv("c07.handler.hold", (<-chan struct{})(rel))
-		iv.holding = false
-		s.SetReadDeadline(time.Now().Add(30 * time.Second))
-		one := make([]byte, 16)
+		defer func() { iv.holding = false }()
+		// The handler manages no deadline of its own from here on: it answers every further nonce for as
+		// long as the dialer keeps the stream, however long the stream has existed.
+		s.SetReadDeadline(time.Time{})
 		for {
-			n, err := s.Read(one)
+			n, err := io.ReadFull(s, buf)
+			if err == nil {
+				iv.nonces = append(iv.nonces, string(buf))
+				if _, werr := s.Write([]byte(fmt.Sprintf("%d|%s|%s\n", in.id, s.Protocol(), string(buf)))); werr != nil {
+					iv.endErr = "later reply: " + short(werr)
+					s.Reset()
+					return
+				}
+				iv.answers++
+				continue
+			}
 			iv.extra += n
-			if err == io.EOF {
+			if err == io.EOF || err == io.ErrUnexpectedEOF {
+				// the dialer closed (its write side): keep the stream until the round's audit is over
+				simrt.Recv("c07.handler.hold", (<-chan struct{})(rel))
 				s.Close()
 				return
 			}
-			if err != nil {
-				iv.endErr = "drain: " + short(err)
-				s.Reset()
-				return
-			}
+			iv.endErr = "drain: " + short(err)
+			s.Reset()
+			return
 		}
 	}
 }
@@ -633,11 +655,37 @@ func (w *world) open(op *openRec, rel <-chan struct{}, reached func()) {
 		return
 	}
 	s.SetDeadline(time.Time{})
+	if op.plan.use == useIdle {
+		// a stream that stays in use long after it was negotiated: bytes must keep flowing both ways
+		idle := 2 * w.negTimeoutB()
+		simrt.TimeSleep(idle)
+		op.idled = idle
+		op.nonce2 = "M" + op.nonce[1:]
+		s.SetDeadline(time.Now().Add(30 * time.Second))
+		if _, err := s.Write([]byte(op.nonce2)); err != nil {
+			op.use2Err = "write: " + short(err)
+		} else if op.reply2, err = readLine(s); err != nil {
+			op.use2Err = "read: " + short(err)
+		}
+		op.use2Done = simrt.Stamp()
+		if op.use2Err != "" {
+			s.Reset()
+			return
+		}
+		s.SetDeadline(time.Time{})
+	}
 	op.held = true
 	mark()
 	simrt.Recv("c07.open.hold", rel)
 	op.held = false
 	end()
+}
+
+func (w *world) negTimeoutB() time.Duration {
+	if w.p.negB != 0 {
+		return w.p.negB
+	}
+	return 10 * time.Second // simhost's default HostOpts.NegotiationTimeout
 }
 
 func settle(d time.Duration) {
@@ -709,6 +757,7 @@ func run(t *testing.T, tape *simrt.Tape) *common.Outcome {
 	}
 	o.Logf("dialer=%s listener=%s security=%s link=%d latencies=%v simultaneous-connect=%v fault=%v(round %d onB=%v n=%d)",
 		hn(p.blankA), hn(p.blankB), p.secu, p.mode, p.lat, p.simul, p.fault, p.faultRound, p.faultOnB, p.faultN)
+	o.Logf("listener negotiation timeout: %v", w.negTimeoutB())
 	if p.nullRcmgr {
 		o.Logf("both nodes use network.NullResourceManager (no scope oracles)")
 		o.Probe("null-resource-manager")
@@ -728,7 +777,11 @@ func run(t *testing.T, tape *simrt.Tape) *common.Outcome {
 				}
 			}
 			rw := simhost.NewRefusingRcmgr(real, "", 0)
-			nd, err := simhost.New(n, simhost.Opts{Key: simhost.DetKey(seed), IP: ip, Port: 4001, Security: p.secu, Rcmgr: rw, WithHost: !blank})
+			var ho *basichost.HostOpts
+			if seed == 2 && p.negB != 0 {
+				ho = &basichost.HostOpts{NegotiationTimeout: p.negB}
+			}
+			nd, err := simhost.New(n, simhost.Opts{Key: simhost.DetKey(seed), IP: ip, Port: 4001, Security: p.secu, Rcmgr: rw, WithHost: !blank, HostOpts: ho})
 			if err != nil {
 				o.Trouble = "node: " + err.Error()
 				real.Close()
